@@ -190,7 +190,7 @@ func (h *lhist) Menu() []string {
 				m = append(m, "reg:"+n+":"+t+":"+c, "unreg:"+n+":"+t+":"+c)
 			}
 		}
-		m = append(m, "ping:"+n, "drop:"+n)
+		m = append(m, "ping:"+n, "drop:"+n, "err:"+n)
 	}
 	m = append(m, "mktopic:T", "rmtopic:T", "mkchan:T:C", "rmchan:T:C", "tomb:T:p1")
 	if h.cfg.Prods > 1 {
@@ -302,6 +302,23 @@ func (h *lhist) Apply(ev string) {
 	case "drop":
 		pr := m.prods[p[1]]
 		pr.conn.C.Close()
+		pr.connected = false
+		for _, e := range m.keys {
+			delete(e, pr.name)
+		}
+	case "err":
+		// the connection ends because nsqlookupd itself drops it: a command with an invalid
+		// topic name is answered with a fatal error. For the registry that is a disconnect.
+		pr := m.prods[p[1]]
+		pr.conn.Cmd("REGISTER bad$topic", nil)
+		h.wq()
+		rs := pr.conn.Responses()
+		if len(rs) != 1 || !strings.HasPrefix(rs[0], "E_BAD_TOPIC") {
+			h.bad("C14 C15 invalid topic name not refused", "REGISTER bad$topic answered %q", rs)
+		}
+		if !pr.conn.Closed {
+			pr.conn.C.Close()
+		}
 		pr.connected = false
 		for _, e := range m.keys {
 			delete(e, pr.name)
